@@ -450,3 +450,104 @@ class Runner:
                      {"op": o.op, "outcome": cause, "env": o.env.get("kind", "")})
         ctx.impl_traces += len(self.pending)
         self.pending = []
+
+
+# -------------------------------------------------------------------------------------------- invalid-number arguments
+# Decimal NaN raises on ordering comparisons but not on == / arithmetic; float NaN compares false with everything.  Every amount slot of
+# every entry point is fed with numbers that are not ordinary finite numbers, and the state is looked at with predicates that cannot pass on NaN.
+SPECIALS = ["NaN", "-NaN", "sNaN", "Infinity", "-Infinity", "1E+400", "-1E+400", "-0", "1E-400", "float:nan", "float:inf", "float:-inf", "float:-0.0", "float:1e300"]
+SPECIAL_SLOTS = [("openMint", "deposit"), ("openMint", "mint"), ("openMint", "byRate"), ("deposit", "eth"), ("burnWithdraw", "burn"), ("burnWithdraw", "withdraw")]
+
+
+def real_arg(x):
+    if isinstance(x, str) and x.startswith("float:"):
+        return float(x[6:])
+    return D(x) if isinstance(x, str) else x
+
+
+def nonfinite_numbers(state):
+    bad = [f"wallet[{n}]" for n, b in state["wallet"] if not D(b).is_finite()]
+    for k, v in state["vaults"]:
+        bad += [f"vault {k}.{f}" for f in ("coll", "short") if not D(v[f]).is_finite()]
+    for k, p in state["positions"]:
+        bad += [f"position {k}.{f}" for f in ("p0", "p1") if not D(p[f]).is_finite()]
+    return bad
+
+
+def safe_state(state):
+    """NaN-safe canonical form: numbers by value where finite (so 3 and 3.0 agree), by text otherwise"""
+    n = lambda x: fr(x) if D(x).is_finite() else str(x)  # noqa: E731
+    return ([(k, n(b)) for k, b in state["wallet"]], int(state["maxId"]),
+            [(int(k), n(v["coll"]), n(v["short"]), v["nft"]) for k, v in state["vaults"]],
+            [([int(t) for t in k], int(p["liquidity"]), n(p["p0"]), n(p["p1"]), bool(p["transferred"])) for k, p in state["positions"]])
+
+
+def special_op(rng, state, slot, x):
+    kind, field = slot
+    vaults = [int(k) for k, _ in state["vaults"]]
+    vk = rng.choice(vaults) if vaults else None
+    if kind == "openMint":
+        op = {"k": "openMint", "deposit": D(str(round(rng.uniform(0.6, 4), 3))), "mint": D(str(round(rng.uniform(0, 2), 3))), "vk": vk if rng.random() < 0.5 else None, "pos": None}
+        if field == "byRate":
+            op["mint"] = D(0)
+        op[field] = x
+        return op
+    if vk is None:
+        return None
+    if kind == "deposit":
+        return {"k": "deposit", "vk": vk, "eth": x}
+    op = {"k": "burnWithdraw", "vk": vk, "burn": D(0), "withdraw": D(0)}
+    op[field] = x
+    return op
+
+
+def special_check(ctx, world, op, pfx="", reject_intact=False):
+    """run `op` (special arguments given as text, see SPECIALS) on the real objects; violations: a NaN / infinite number anywhere in wallet,
+    vaults or positions afterwards; [reject_intact] a raising call that changed the state or recorded actions"""
+    before = world.dump_state()
+    rop = {k: real_arg(v) if k in ("deposit", "mint", "byRate", "eth", "burn", "withdraw") else v for k, v in op.items()}
+    err, out, actions = world.apply_op(rop)
+    after = world.dump_state()
+    rep = {"spec": before, "env": dict(world.env), "op": op, "special": True}
+    bad = nonfinite_numbers(after)
+    if bad:
+        ctx.violate(f"{pfx}nonfinite-state:{op['k']}", f"{op['k']} {op} -> {err or 'ok'}: {', '.join(bad)} is no longer a finite number: {after['wallet']} {after['vaults']}"[:700], rep)
+    for vid, v in after["vaults"]:
+        if any(D(v[f]).is_finite() and D(v[f]) < 0 for f in ("coll", "short")):
+            ctx.violate(f"{pfx}negative.vault:{op['k']}:special", f"{op['k']} {op} leaves vault {vid} with coll {v['coll']}, short {v['short']}", rep)
+    if reject_intact and err is not None and (safe_state(before) != safe_state(after) or actions):
+        ctx.violate(f"{pfx}{op['k']}:{err}:special", f"{op['k']} {op} raised {err} but changed the state: {before['wallet']} {before['vaults']} -> {after['wallet']} {after['vaults']}, "
+                    f"actions {[a['k'] for a in actions]}"[:700], rep)
+    return err, bool(bad)
+
+
+def special_stream(ctx, n, pfx="", reject_intact=False):
+    import squeeth_gen as G
+    rng = ctx.rng
+    for i in range(n):
+        env = G.gen_env(rng)
+        world = World(G.empty_state(rng, with_osqth=rng.random() > 0.1), env)
+        for _ in range(rng.choice([0, 1, 2, 3])):          # a reachable state first
+            op, _ = G.gen_op(rng, world, world.dump_state())
+            if op["k"] in ("openMint", "deposit", "burnWithdraw"):
+                world.apply_op(op)
+        slot = SPECIAL_SLOTS[i % len(SPECIAL_SLOTS)]
+        x = rng.choice(SPECIALS)
+        op = special_op(rng, world.dump_state(), slot, x)
+        if op is None:
+            continue
+        err, bad = special_check(ctx, world, op, pfx, reject_intact)
+        ctx.impl_traces += 1
+        ctx.case(f"{'flip:' if env.get('flip') else ''}special:{slot[0]}.{slot[1]}:{x}:{err or 'ok'}{':NONFINITE' if bad else ''}", {"op": {k: str(v) for k, v in op.items()}, "outcome": err or "ok"})
+
+
+def special_replay(case, pfx="", reject_intact=False):
+    import squeeth_gen as G
+    from common import Ctx
+    world = World(G.parse_spec(case["spec"]), G.parse_env(case["env"]))
+    sub = Ctx("C14", "quick", 0, False)
+    err, _ = special_check(sub, world, case["op"], pfx, reject_intact)
+    print(f"   {case['op']} -> {err or 'ok'}")
+    for v in sub.violations:
+        print("  ", v["key"], "—", v["what"][:300])
+    return not sub.violations
